@@ -18,7 +18,9 @@ CLAIMED = {
  "C06": dict(
    text="Theorems over the namespace model (Scope.v), for EVERY stack of scopes / namespace / name: C06_origin_is_nearest_binder and "
         "C06_nearest_binder_is_found - generate_nsp's search for the origin of a free/nonlocal name is Python's rule (nearest enclosing "
-        "function that binds it, classes skipped, a global declaration ends the search); C06_load_form / C06_store_form / "
+        "function that binds it, classes skipped, a global declaration ends the search); C06_dict_storage_consistent - in the namespace tree "
+        "of every symbol table every outer-map entry names a function on the chain that keeps the name in its dictionary (induction over "
+        "the table tree through both passes of generate_nsp); C06_load_form / C06_store_form / "
         "C06_walrus_value_form - what get_load_name / get_assign / get_load_assigned emit is the rendering of an access decision; "
         "C06_global_load_is_module - a module variable is never captured by the lambda of an enclosing function; "
         "C06_function_load_store_agree, C06_class_load_store_agree - loads and stores of a name in one namespace meet in one cell "
